@@ -19,6 +19,12 @@ const verbose = false
 const verboseGeoJSON = false
 
 func sightline(context *api.Context, from b6.Geometry, radius float64) (b6.Area, error) {
+	if err := requireGeometry("sightline", from); err != nil {
+		return nil, err
+	}
+	if !(radius > 0.0) {
+		return nil, fmt.Errorf("sightline: radius must be greater than 0, found %f", radius)
+	}
 	if centroid, ok := b6.Centroid(from); ok {
 		return b6.AreaFromS2Polygon(Sightline(centroid, b6.MetersToAngle(radius), context.World)), nil
 	}
